@@ -61,7 +61,7 @@ type Config struct {
 }
 
 func DefaultConfig() Config {
-	return Config{MaxPaths: 4000, MaxDepth: 14, QueryMs: 5000, FeasMs: 300, UnitSec: 120, MaxUnroll: 3, Safety: true, Z3: "z3-new", WantModel: true, InlineAcross: true}
+	return Config{MaxPaths: 4000, MaxDepth: 14, QueryMs: 5000, FeasMs: 120, UnitSec: 120, MaxUnroll: 3, Safety: true, Z3: "z3-new", WantModel: true, InlineAcross: true}
 }
 
 // Unit is the verification of one target function (or lemma).
@@ -105,6 +105,7 @@ type Unit struct {
 	ctxBase  *Term
 	NAssumeCalls int
 	inInit   bool
+	Standalone int
 	cellByID map[int]*Cell
 	divMemo  map[string]divEntry
 	paramVals []Val
@@ -233,6 +234,17 @@ func (u *Unit) byteFact(b *Term) {
 	u.S.Assert(And(Le(IntLit(0), b), Le(b, IntLit(255))))
 }
 
+// nameShort names every term longer than a few tokens (not inside binders).
+func (u *Unit) nameShort(t *Term, prefix string) *Term {
+	if len(t.S) < 40 || t.IsInt || t.IsBool || u.binder > 0 || t.Sort == SArr {
+		return t
+	}
+	c := u.newConst(prefix, t.Sort)
+	u.S.Assert(Eq(c, t))
+	lo, hi := bounds(t)
+	return WithBounds(c, lo, hi)
+}
+
 // mkArr builds a derived array; the index of every read is named first so
 // that expansions through long write histories stay linear in size.
 func (u *Unit) mkArr(fn func(idx *Term) *Term) *Term {
@@ -263,12 +275,26 @@ func (u *Unit) feasible(cond *Term) bool {
 	u.S.Push()
 	u.S.Assert(cond)
 	r := u.S.CheckSatT(u.Cfg.FeasMs)
+	if r == "unknown" {
+		// the incremental core gives up early; a fresh process with full
+		// preprocessing usually decides the same query in milliseconds
+		r2, _ := RunScript(u.Cfg.Z3, u.S.Script(nil, "z3"), 2*time.Second)
+		u.Standalone++
+		r = r2
+	}
 	u.S.Pop()
 	return r != "unsat"
 }
 
 // pathFeasible: is the current path condition satisfiable at all?
-func (u *Unit) pathFeasible() bool { return u.S.CheckSatT(u.Cfg.FeasMs) != "unsat" }
+func (u *Unit) pathFeasible() bool {
+	r := u.S.CheckSatT(u.Cfg.FeasMs)
+	if r == "unknown" {
+		r, _ = RunScript(u.Cfg.Z3, u.S.Script(nil, "z3"), 2*time.Second)
+		u.Standalone++
+	}
+	return r != "unsat"
+}
 
 func (u *Unit) obl(name, kind string) *Obligation {
 	o := u.Obls[name]
@@ -321,7 +347,19 @@ func (u *Unit) check(st *State, name, kind string, goal *Term, text string) bool
 			}
 		}
 	}
-	r, model := u.S.CheckGoal(goal, want)
+	r, model := u.S.CheckGoalT(goal, want, 1500)
+	if r == "unknown" {
+		r2, _ := RunScript(u.Cfg.Z3, u.S.Script(goal, "z3"), time.Duration(u.Cfg.QueryMs)*time.Millisecond)
+		u.Standalone++
+		if r2 == "unsat" {
+			r = "unsat"
+			if o.Solver == "" {
+				o.Solver = u.Cfg.Z3 + " (standalone)"
+			}
+		} else if r2 == "sat" {
+			r = "sat"
+		}
+	}
 	o.TimeS += time.Since(t0).Seconds()
 	if r == "sat" && model != nil && o.Model == nil {
 		o.Model = model
